@@ -1,12 +1,13 @@
 #!/bin/sh
-# usage: evalseed.sh <patch> <property> [more properties...]  -- applies a patch to /repo, runs the quick checks, reverts.
+# usage: evalseed.sh <patch> <property> [more properties...]
+# applies a patch to a scratch worktree of /repo (never to /repo itself, so that checks running
+# elsewhere are not disturbed), runs the quick checks against it, removes the worktree.
 P="$1"; shift
-cd /repo || exit 2
-if [ -n "$(git status --porcelain --untracked-files=no)" ]; then echo "/repo dirty"; exit 2; fi
-git apply "$P" || { echo "patch does not apply"; exit 2; }
+WT=/tmp/evalseed_wt.$$
+git -C /repo worktree add -q --detach "$WT" HEAD || { echo "cannot create worktree"; exit 2; }
+trap 'git -C /repo worktree remove --force "$WT" >/dev/null 2>&1; rm -f /tmp/evalseed.$$.log' EXIT INT TERM
+git -C "$WT" apply "$P" || { echo "patch does not apply"; exit 2; }
 for PROP in "$@"; do
-  /verif/run.sh check "$PROP" quick > /tmp/evalseed.$$.log 2>&1; rc=$?
+  VERIF_REPO="$WT" /verif/run.sh check "$PROP" quick > /tmp/evalseed.$$.log 2>&1; rc=$?
   echo "[$PROP] exit=$rc"; grep -E "^violation class|VIOLATION-CLASS|INFRA|BUILD" /tmp/evalseed.$$.log | cut -c1-260 | head -6
 done
-git -C /repo checkout -- .
-rm -f /tmp/evalseed.$$.log
